@@ -3705,11 +3705,11 @@ class EquilibriumRegion(PsiContour):
                     # s(iN) = A*(1 - exp(B*(N/N_norm - iN)) + C
                     # s(N/N_norm) = L = C
                     # ds/diN(N/N_norm) = b_upper = A*B
-                    # d2s/d2iN(N/N_norm) = a/4/(N/N_norm)**1.5 + 2*e + 6*f*N/N_norm
+                    # d2s/d2iN(N/N_norm) = -a/4/(N/N_norm)**1.5 + 2*e + 6*f*N/N_norm
                     #                    = -A*B**2
                     B = (
                         -(
-                            a / 4.0 / (N / N_norm) ** 1.5
+                            -a / 4.0 / (N / N_norm) ** 1.5
                             + 2.0 * e
                             + 6.0 * f * N / N_norm
                         )
